@@ -855,3 +855,168 @@ func fieldToEndDomain(rc *core.RC, t *opTable) map[int]bool {
 	}
 	return dom
 }
+
+// ---- C01.R5 every handler uses the primitive its opcode names ----
+
+var opFamilies = []string{"Float32", "Float64", "Uint", "Int", "Bool", "Bytes", "Number", "MarshalJSON", "MarshalText", "Interface", "Array", "Slice", "Map", "Struct", "String"}
+
+// opFamily derives the value family from an opcode name: the positional prefix
+// (StructHead…, StructField…, StructEnd…) and the Ptr/String suffixes are stripped.
+func opFamily(name string) string {
+	s := name
+	for _, pre := range []string{"StructPtrHeadOmitEmpty", "StructHeadOmitEmpty", "StructPtrHead", "StructHead", "StructFieldOmitEmpty", "StructField", "StructEndOmitEmpty", "StructEnd"} {
+		if strings.HasPrefix(s, pre) {
+			s = strings.TrimPrefix(s, pre)
+			break
+		}
+	}
+	for _, suf := range []string{"PtrString", "Ptr"} {
+		if strings.HasSuffix(s, suf) && len(s) > len(suf) {
+			s = strings.TrimSuffix(s, suf)
+		}
+	}
+	if strings.HasSuffix(s, "String") && s != "String" {
+		s = strings.TrimSuffix(s, "String")
+	}
+	for _, f := range opFamilies {
+		if s == f {
+			return f
+		}
+	}
+	return ""
+}
+
+var familyAppender = map[string]string{
+	"Int": "appendInt", "Uint": "appendUint", "Float32": "appendFloat32", "Float64": "appendFloat64", "Bool": "appendBool",
+	"String": "appendString", "Bytes": "appendByteSlice", "Number": "appendNumber", "MarshalJSON": "appendMarshalJSON", "MarshalText": "appendMarshalText",
+}
+
+var familyLoader = map[string]string{
+	"Float32": "ptrToFloat32", "Float64": "ptrToFloat64", "Bool": "ptrToBool", "String": "ptrToString", "Bytes": "ptrToBytes", "Number": "ptrToNumber",
+}
+
+func c01r5(rc *core.RC) {
+	p := rc.P
+	t := loadOpTable(rc)
+	if t == nil {
+		return
+	}
+	allAppenders := map[string]bool{}
+	for _, a := range familyAppender {
+		allAppenders[a] = true
+	}
+	allLoaders := map[string]bool{}
+	for _, l := range familyLoader {
+		allLoaders[l] = true
+	}
+	for _, vm := range core.VMPkgs {
+		cl, sw := opClauses(rc, vm, t)
+		if cl == nil {
+			continue
+		}
+		pk := p.Pkg(vm)
+		info := pk.TypesInfo
+		// the plain packages alias encoder functions: the alias must point at the function of the same name
+		for a := range allAppenders {
+			if _, isVar := pk.Types.Scope().Lookup(a).(*types.Var); isVar {
+				_, target := vmAlias(rc, vm, a)
+				want := strings.ToUpper(a[:1]) + a[1:]
+				if a == "appendMarshalJSON" || a == "appendMarshalText" {
+					continue
+				}
+				rc.Check(target != nil && target.Name() == want, fmt.Sprintf("%s.%s/alias", vm, a), sw.Pos(), "package variable %s aliases encoder.%s", a, want)
+			}
+		}
+		var keys []string
+		for k := range cl {
+			keys = append(keys, k)
+		}
+		sort.Strings(keys)
+		for _, k := range keys {
+			cc := cl[k]
+			fams := map[string]bool{}
+			for _, lab := range strings.Split(k, ",") {
+				if f := opFamily(strings.TrimPrefix(lab, "Op")); f != "" {
+					fams[f] = true
+				}
+			}
+			if len(fams) != 1 {
+				continue
+			}
+			var fam string
+			for f := range fams {
+				fam = f
+			}
+			wantApp, scalar := familyAppender[fam]
+			if !scalar {
+				continue
+			}
+			used := map[string]bool{}
+			loaders := map[string]bool{}
+			// a clause ending in `fallthrough` continues in the next clause: follow the chain
+			for cur := cc; cur != nil; {
+				ast.Inspect(cur, func(n ast.Node) bool {
+					call, ok := n.(*ast.CallExpr)
+					if !ok {
+						return true
+					}
+					if o := calledIdent(info, call); o != nil && o.Pkg() == pk.Types {
+						if allAppenders[o.Name()] {
+							used[o.Name()] = true
+						}
+						if allLoaders[o.Name()] {
+							loaders[o.Name()] = true
+						}
+					}
+					return true
+				})
+				next := (*ast.CaseClause)(nil)
+				if n := len(cur.Body); n > 0 {
+					if br, ok := cur.Body[n-1].(*ast.BranchStmt); ok && br.Tok == token.FALLTHROUGH {
+						for i, st := range sw.Body.List {
+							if st == ast.Stmt(cur) && i+1 < len(sw.Body.List) {
+								next = sw.Body.List[i+1].(*ast.CaseClause)
+							}
+						}
+					}
+				}
+				cur = next
+			}
+			key := fmt.Sprintf("%s.Run/case %s/value-primitive", vm, strings.Split(k, ",")[0])
+			var wrong []string
+			for u := range used {
+				if u != wantApp {
+					wrong = append(wrong, u)
+				}
+			}
+			sort.Strings(wrong)
+			switch {
+			case len(wrong) > 0:
+				rc.Bad(key, cc.Pos(), "the handler of a %s opcode formats its value with %s; the opcode names %s: values of that type are printed through the wrong primitive", fam, strings.Join(wrong, ","), wantApp)
+			case !used[wantApp]:
+				rc.Bad(key, cc.Pos(), "the handler of a %s opcode never calls %s", fam, wantApp)
+			default:
+				rc.OK(key, cc.Pos(), "%s", wantApp)
+			}
+			if wl, ok := familyLoader[fam]; ok {
+				var wrongL []string
+				for l := range loaders {
+					if l != wl {
+						wrongL = append(wrongL, l)
+					}
+				}
+				sort.Strings(wrongL)
+				rc.Check(len(wrongL) == 0 && loaders[wl], fmt.Sprintf("%s.Run/case %s/value-loader", vm, strings.Split(k, ",")[0]), cc.Pos(), "a %s opcode loads its value with %s (found %v)", fam, wl, keysOf(loaders))
+			}
+		}
+	}
+}
+
+func keysOf(m map[string]bool) []string {
+	var out []string
+	for k := range m {
+		out = append(out, k)
+	}
+	sort.Strings(out)
+	return out
+}
